@@ -526,6 +526,94 @@ def golden_unit(unit):
             finally:
                 h.close()
         run.drop(path)
+    # JSONDisk keys as the pinned commit stored them (golden/json_keys.json,
+    # incl. dict keys in non-sorted insertion order): a row written under the
+    # released encoding is found, listed and removable through the same key
+    import json as _json
+    import sqlite3 as _sqlite3
+    recorded = _json.load(open(os.path.join(run.VERIF, 'golden',
+                                            'json_keys.json')))['keys']
+    for level in sorted({r['level'] for r in recorded}):
+        path = run.fresh_dir('gj')
+        ENV.reset(run.scratch())
+        h = dc.Cache(path, disk=dc.JSONDisk, disk_compress_level=level)
+        rows = [r for r in recorded if r['level'] == level]
+        try:
+            h.set('seed', 0)
+            for i, r in enumerate(rows):
+                h.set('placeholder-%d' % i, i)
+            h.close()
+            # re-key the placeholder rows with the recorded key bytes
+            con = _sqlite3.connect(os.path.join(path, 'cache.db'))
+            for i, r in enumerate(rows):
+                con.execute('UPDATE Cache SET key = ?, raw = ? WHERE rowid = ?',
+                            (bytes.fromhex(r['stored']), int(r['raw']), i + 2))
+            con.commit()
+            con.close()
+            h = dc.Cache(path, disk=dc.JSONDisk)
+            for i, r in enumerate(rows):
+                t()
+                key = r['key']
+                got = (call(h.get, key, 'MISSING'), call(h.__contains__, key))
+                if got != (i, True):
+                    bad('json key encoding', 'JSONDisk level %d: the row '
+                        'stored by the released version under key %r is not '
+                        'found: (get, in) = %r' % (level, key, got))
+            listed = call(lambda: sorted(_json.dumps(k) for k in h))
+            want = sorted([_json.dumps(r['key']) for r in rows]
+                          + [_json.dumps('seed')])
+            if listed != want:
+                bad('json key encoding', 'iteration lists %r, stored %r'
+                    % (listed, want))
+            for r in rows:
+                t()
+                if call(h.delete, r['key']) is not True:
+                    bad('json key encoding', 'delete(%r) did not find the '
+                        'released-format row' % (r['key'],))
+                    break
+        finally:
+            try:
+                h.close()
+            except Exception:
+                pass
+            run.drop(path)
+    # opening, unpickling or copying a bounded Deque never removes items that
+    # another (unbounded) handle put into the directory
+    for how in ('open', 'pickle', 'fanout', 'copy'):
+        path = run.fresh_dir('gd')
+        ENV.reset(run.scratch())
+        owner = None
+        try:
+            if how == 'fanout':
+                owner = dc.FanoutCache(path, shards=2)
+                a = owner.deque('q', maxlen=3)
+            else:
+                a = dc.Deque([1, 2, 3], directory=path, maxlen=3)
+            if how == 'fanout':
+                a.extend([1, 2, 3])
+            b = dc.Deque(directory=a.directory)
+            b.appendleft(0)
+            b.appendleft(-1)
+            want = [-1, 0, 1, 2, 3]
+            if how == 'open':
+                c = dc.Deque(directory=a.directory, maxlen=3)
+            elif how == 'pickle':
+                c = pickle.loads(pickle.dumps(a))
+            elif how == 'fanout':
+                c = owner.deque('q', maxlen=2)
+            else:
+                c = a.copy()
+            t()
+            seen = (list(b), list(dc.Deque(directory=a.directory)))
+            if seen != (want, want):
+                bad('bounded deque handle', 'creating a bounded handle (%s) '
+                    'on a directory holding %r left %r' % (how, want, seen[1]))
+            if how == 'copy' and c.directory != a.directory:
+                shutil.rmtree(c.directory, ignore_errors=True)
+        finally:
+            if owner is not None:
+                owner.close()
+            run.drop(path)
     part['samples'].append({'golden_items': part['states']})
     run.drop(root)
     return part
